@@ -1,6 +1,7 @@
 package callsim
 
 import (
+	"math"
 	"encoding/binary"
 	"encoding/json"
 	"fmt"
@@ -195,6 +196,27 @@ func corrupt(r *rng.R, set map[string]*val.V) (map[string]*val.V, string) {
 		if v.DT == val.Int32 {
 			nv.DT = val.Float64
 		}
+		if r.Bool() {
+			// the NEAREST wrong type, holding the caller's real data: float64 for a float32 input (what a caller gets
+			// from most numeric code), float32 for float64, the other integer width. A tree that starts to accept and
+			// convert such inputs must then treat the call like any other.
+			near := map[val.DT]val.DT{val.Float32: val.Float64, val.Float64: val.Float32, val.Int64: val.Int32, val.Int32: val.Int64}
+			if nd, ok := near[v.DT]; ok {
+				nv = &val.V{DT: nd, Shape: v.Shape, Bits: make([]uint64, len(v.Bits))}
+				for i, b := range v.Bits {
+					switch {
+					case v.DT == val.Float32:
+						nv.Bits[i] = math.Float64bits(float64(math.Float32frombits(uint32(b))))
+					case v.DT == val.Float64:
+						nv.Bits[i] = uint64(math.Float32bits(float32(math.Float64frombits(b))))
+					case nd == val.Int32:
+						nv.Bits[i] = uint64(uint32(int32(int64(b))))
+					default:
+						nv.Bits[i] = uint64(int64(int32(uint32(b))))
+					}
+				}
+			}
+		}
 		o[name] = nv
 		return o, "element type changed on " + name
 	case 4:
@@ -254,8 +276,12 @@ func drawTask(r *rng.R, models []drawnModel, n int, allowLoad bool) Task {
 				}
 			}
 			t.Calls = append(t.Calls, c)
-		case k < 48 && len(prev) > 0:
+		case k < 40 && len(prev) > 0:
 			t.Calls = append(t.Calls, Call{Kind: KSame, Model: mi, Ref: prev[r.Intn(len(prev))]})
+		case k < 48 && len(prev) > 0:
+			// buffer re-use: the caller overwrites the tensors of an earlier call and passes them again
+			ref := prev[r.Intn(len(prev))]
+			t.Calls = append(t.Calls, Call{Kind: KRefill, Model: mi, Ref: ref, Inputs: refillOf(r, t.Calls, ref, set)})
 		case k < 60 && len(prev) > 0:
 			t.Calls = append(t.Calls, Call{Kind: KFeedback, Model: mi, Inputs: set(), Ref: prev[r.Intn(len(prev))]})
 		case k < 74:
@@ -368,6 +394,52 @@ func drawWorld02(r *rng.R, lib *library) *Case {
 	return &Case{Prop: "C02", World: w, Order: shuffled, Policy: "serial-interleaved"}
 }
 
+// refillOf: what the caller writes into the buffers of call ref. Either a whole new input set, or the OLD contents
+// rearranged (reversed, rotated, two elements exchanged, one negated pair): edits that keep sums, extrema, sizes and
+// every other cheap fingerprint of the old contents.
+func refillOf(r *rng.R, calls []Call, ref int, fresh func() map[string]*val.V) map[string]*val.V {
+	root := ref
+	for hops := 0; hops < 64 && calls[root].Inputs == nil && calls[root].Ref >= 0 && calls[root].Ref < root; hops++ {
+		root = calls[root].Ref
+	}
+	old := calls[root].Inputs
+	if old == nil || hasBadShape(old) || r.Chance(1, 3) {
+		return fresh()
+	}
+	o := cloneSet(old)
+	for _, name := range sortedKeys(o) {
+		b := o[name].Bits
+		if len(b) < 2 {
+			continue
+		}
+		switch r.Intn(4) {
+		case 0:
+			for i, j := 0, len(b)-1; i < j; i, j = i+1, j-1 {
+				b[i], b[j] = b[j], b[i]
+			}
+		case 1:
+			first := b[0]
+			copy(b, b[1:])
+			b[len(b)-1] = first
+		case 2:
+			i, j := r.Intn(len(b)), r.Intn(len(b))
+			b[i], b[j] = b[j], b[i]
+		case 3:
+			// unchanged on purpose: the same values written again
+		}
+	}
+	return o
+}
+
+func hasBadShape(set map[string]*val.V) bool {
+	for _, v := range set {
+		if v == nil || val.NElems(v.Shape) != len(v.Bits) {
+			return true
+		}
+	}
+	return false
+}
+
 // nontrivial02: at least two Runs on one Model of which a later one re-uses objects, takes fed-back outputs
 // or follows a failed/aborted call.
 func nontrivial02(c *Case, wr *worldRun) bool {
@@ -377,7 +449,7 @@ func nontrivial02(c *Case, wr *worldRun) bool {
 				continue
 			}
 			switch call.Kind {
-			case KSame, KFeedback:
+			case KSame, KFeedback, KRefill:
 				return true
 			case KRun:
 				for cj := 0; cj < ci; cj++ {
